@@ -194,6 +194,12 @@ theorem quiescent_all_done (h : Reachable w s) (hq : ∀ l s', ¬ Step s l s') :
       · exact hd
       · rcases ha (s.takenBy ⟨i, k⟩) with hx | hx <;> rw [hx] at hd <;> simp [drainRem] at hd
 
+/-- the hypothesis of `quiescent_all_done` is exactly "every submitter has returned from its last Submit and every
+    activation that was created has returned" (so it is reached by every run that lets the threads finish) -/
+theorem quiescent_iff_finished (h : Reachable w s) :
+    (∀ l s', ¬ Step s l s') ↔ ((∀ i, subFinished w s i) ∧ (∀ a, actTerminal (s.acts a))) :=
+  ⟨quiescent_threads (inv_reachable h).tok, fun hf => finished_quiescent (inv_reachable h).tok hf.1 hf.2⟩
+
 /-- **the strand never blocks**: whatever the other threads do, a submitter inside `Submit` and a started
     activation (a thread of the underlying executor inside `Strand::Call` / `Strand::Drop`) always has an enabled
     step of its own — the model has no waiting rule, and none is needed to prove the rest; a queued activation can
